@@ -154,9 +154,12 @@ def _alt_form(o):
     """the same exact object through another public constructor form (None: no alternative for this type)."""
     k = o[0]
     if FORM == 'D':
-        # Line(Vector, Vector), HalfLine(P, P), Segment(P, V), Plane(Point, Vector, Vector)
+        # Line(Vector, Vector), Plane(Point, Vector, Vector); HalfLine / Line directions much shorter than 1 (same set: a
+        # direction vector is only a direction, whatever its length)
         if k == 'Line':
-            return Line(V(o[1]), V(o[2]))
+            return Line(V(o[1]), Vector(*[float(c) / 8 for c in o[2]]))
+        if k == 'HalfLine':
+            return HalfLine(P(o[1]), Vector(*[float(c) / 8 for c in o[2]]))
         if k == 'Plane':
             n = o[2]
             e = next(e for e in ((1, 0, 0), (0, 1, 0), (0, 0, 1)) if not X.is_zero(X.cross(n, e)))
@@ -426,7 +429,7 @@ def legal_prelude():
     z = Vector.zero()
     Line(z, Vector(0.0, 0.0, 1.0)).move(Vector(1.0, 0.0, 0.0))        # Line(Vector, Vector) keeps and shifts its support vector
     z2 = Vector.zero()
-    z2[1] = 3.0
+    z2[0] = 1.0        # (were the zero vector a shared object, it would now be the most common direction of all, (1, 0, 0))
     o = origin()
     o.move(Vector(0.0, 1.0, 0.0))
     Line(origin(), Vector(1.0, 1.0, 0.0)).move(Vector(0.0, 0.0, 2.0))
